@@ -1,11 +1,11 @@
 ----------------------------- MODULE ProducersMC -----------------------------
 EXTENDS Producers, TLC
-CONSTANT MaxPlan, Depth
+CONSTANT MaxPlan, MaxPc, MaxStops, Depth
 Plans == UNION {[1..n -> {0, 1}] : n \in 0..MaxPlan}
 Init == \E k \in Kinds, pl \in Plans, u \in {"stop", "raise", "forget"} :
           /\ (k # "p2p" => u = "stop")
           /\ InitWith([kind |-> k, plan |-> pl, rs |-> 1, unreg |-> u])
 Spec == Init /\ [][Next]_vars
-Bound == pc <= 2 /\ nstops <= 2 /\ ri <= MaxPlan + 1 /\ TLCGet("level") <= Depth
+Bound == pc <= MaxPc /\ nstops <= MaxStops /\ ri <= MaxPlan + 1 /\ TLCGet("level") <= Depth
 View == <<cfg, started, task, pc, ri, closed, closes, out, dst, dres, nfired, fsfile, lastSent, unregs, pstops, nstops, ustop, sched>>
 =============================================================================
